@@ -52,6 +52,9 @@ def write_json(path, obj):
 
 
 def main(argv=None):
+    import warnings
+
+    warnings.simplefilter("ignore")
     ap = argparse.ArgumentParser()
     ap.add_argument("pid", nargs="?")
     ap.add_argument("--tier", default=os.environ.get("VERIF_TIER", "quick"))
